@@ -62,48 +62,49 @@ def build(tier, seed):
             "O2.prefix.n%d" % n, n, "pages[:%d] == shorter" % (n - 1),
             "assignment of rows 0..n-2 is the same with and without row n-1", T,
             extra_body="    shorter = assign(H[:-1], S[:-1], G[:-1], nrow, add, new_page, C[:-1])\n"))
-    # O3: group-start flags and budgeted heading rows from calculate_row_metadata
+    # O3: group-start flags and budgeted heading rows from calculate_row_metadata ('-----' divider values included)
     for n in ((2, 3) if quick else (2, 3, 4)):
         for levels in (1, 2):
-            ksig = ", ".join("k%d: str" % i for i in range(n)) + (
-                ", " + ", ".join("m%d: str" % i for i in range(n)) if levels == 2 else "")
-            pre = ["len(k%d) == 1" % i for i in range(n)] + (["len(m%d) == 1" % i for i in range(n)] if levels == 2 else [])
-            cols = "{'g': [%s], %s'v': ['x'] * %d}" % (
-                ", ".join("k%d" % i for i in range(n)),
-                ("'h': [%s], " % ", ".join("m%d" % i for i in range(n))) if levels == 2 else "", n)
-            pb = "['g', 'h']" if levels == 2 else "['g']"
-            rm = "[0, 1]" if levels == 2 else "[0]"
-            keyt = "[(k%s, m%s) for k%s, m%s in zip(K, M)]" if levels == 2 else None
-            body = (
-                "    K = [%s]\n" % ", ".join("k%d" % i for i in range(n))
-                + ("    M = [%s]\n" % ", ".join("m%d" % i for i in range(n)) if levels == 2 else "")
-                + "    keys = " + ("list(zip(K, M))" if levels == 2 else "K") + "\n"
-                + "    if sub:\n"
-                + "        rows = metadata(%s, [1.0], None, %s, %s, nrow, add, True, lambda t, f, s: 0.5)\n" % (cols, pb, rm)
-                + "    else:\n"
-                + "        rows = metadata(%s, [1.0], %s, None, %s, nrow, add, new_page, lambda t, f, s: 0.5)\n" % (cols, pb, rm)
-                + "    ok = len(rows) == %d\n" % n
-                + "    for i, r in enumerate(rows):\n"
-                + "        start = (i == 0) or keys[i] != keys[i - 1]\n"
-                + "        nlev = %d\n" % levels
-                + "        first = 0 if i == 0 else ([j for j in range(nlev) if (keys[i][j] if nlev > 1 else keys[i]) != (keys[i - 1][j] if nlev > 1 else keys[i - 1])] + [nlev])[0]\n"
-                + "        want_hdr = 0 if not start else (1 if sub else nlev - first)\n"
-                + "        flag = r['is_subline_start'] if sub else r['is_group_start']\n"
-                + "        other = r['is_group_start'] if sub else r['is_subline_start']\n"
-                + "        hdr = r['subline_header_rows'] if sub else r['pageby_header_rows']\n"
-                + "        ok = ok and flag == start and other == False and r['row_index'] == i\n"
-                + "        ok = ok and r['data_rows'] == 1 and hdr == want_hdr and r['total_rows'] == 1 + hdr\n"
-                + "    return ok\n")
+            names = ["g", "h"][:levels]
+            # quick tier, n=3 with two levels: no divider values (n=2 and the thorough tier have them on both levels)
+            div_levels = [] if (quick and n == 3 and levels == 2) else list(range(levels))
+            ksig = ", ".join("k%d_%d: str" % (l, i) + (", d%d_%d: bool" % (l, i) if l in div_levels else "")
+                             for l in range(levels) for i in range(n))
+            pre = ["len(k%d_%d) == 1" % (l, i) for l in range(levels) for i in range(n)]
+            lk = "[" + ", ".join("[" + ", ".join(("(DIV if d%d_%d else k%d_%d)" % (l, i, l, i)) if l in div_levels else ("k%d_%d" % (l, i))
+                                                 for i in range(n)) + "]" for l in range(levels)) + "]"
             obs.append(Ob(
                 oid="O3.meta.n%d.l%d" % (n, levels), sig=ksig + ", nrow: int, add: int, new_page: bool, sub: bool",
-                pre=pre + ["nrow >= 1", "add >= 0"], body=body, header=HDR, timeout=T, funcs=F_META,
+                pre=pre + ["nrow >= 1", "add >= 0"], header=HDR, timeout=T, funcs=F_META,
+                body=r'''
+    LK = %s
+    names = %r
+    cols = dict(zip(names, LK))
+    cols["v"] = ["x"] * %d
+    removed = list(range(len(names)))
+    if sub:
+        rows = metadata(cols, [1.0], None, names, removed, nrow, add, True, lambda t, f, s: 0.5)
+    else:
+        rows = metadata(cols, [1.0], names, None, removed, nrow, add, new_page, lambda t, f, s: 0.5)
+    ok = len(rows) == %d
+    for i, r in enumerate(rows):
+        start, want_hdr, want_cont = expected_meta(LK, i, sub)
+        flag = r["is_subline_start"] if sub else r["is_group_start"]
+        other = r["is_group_start"] if sub else r["is_subline_start"]
+        hdr = r["subline_header_rows"] if sub else r["pageby_header_rows"]
+        ok = ok and flag == start and other == False and r["row_index"] == i
+        ok = ok and r["data_rows"] == 1 and hdr == want_hdr and r["total_rows"] == 1 + hdr
+        if not sub:
+            ok = ok and (r.get("continuation_header_rows") or 0) == want_cont
+    return ok
+''' % (lk, names, n, n),
                 stubs=["data frame -> FakeFrame dict-of-lists", "get_string_width -> constant 0.5 (every cell/heading is one line "
                        "in a 1-inch column)", "pl.DataFrame(rows) -> recording object"],
-                bounds="n=%d rows, %d grouping level(s), keys symbolic one-character strings, page_by or subline_by (symbolic), "
-                       "nrow/reserved unbounded" % (n, levels),
-                what="is_group_start/is_subline_start(i) <=> some key of row i differs from row i-1; row 0 starts; "
-                     "total_rows = data lines + one heading line per rendered level of the starting group (page_by: the outermost changed "
-                     "level and all below it; subline_by: one heading paragraph)"))
+                bounds="n=%d rows, %d grouping level(s), every key a symbolic one-character string or the '-----' divider, page_by or "
+                       "subline_by (symbolic), nrow/reserved unbounded" % (n, levels),
+                what="is_group_start/is_subline_start(i) <=> some key of row i differs from row i-1 (a divider is a key value); row 0 "
+                     "starts; total_rows = data lines + one heading line per rendered non-divider level of the starting group; the rows "
+                     "charged for headings repeated at the top of a page count non-divider levels only (dividers never cost a row)"))
     # O4: the strategies pass the right forcing flags to the calculator
     obs.append(Ob(
         oid="O4.strategy_flags", sig="new_page: bool, pageby_header: bool, which: int", pre=["0 <= which <= 2"],
